@@ -18,7 +18,8 @@ EXPLANATION = (
     "constructor. (H2) successor protocol of _expand_one_node (engine of C04-T6): maximal trap spaces of the node -- "
     "global net with ensure_subspace = node space, or the node's own percolated net with every result joined with the "
     "node space --, source optimisation only at the root, every element reaches _ensure_node(node, .) through "
-    "order/completeness-preserving steps, expanded=True after the loop. (H3) motif bookkeeping: _ensure_edge records the "
+    "order/completeness-preserving steps, the list is provably not truncated at the limit (engine of C15-E5), "
+    "expanded=True after the loop. (H3) motif bookkeeping: _ensure_edge records the "
     "motif on every path (new edge: motif=m, all_motifs=[m]; existing edge: all_motifs.append(m)); _ensure_node passes "
     "the unpercolated motif on; edge_stable_motif / edge_all_stable_motifs return the stored data, and their reduced "
     "variants remove exactly the variables fixed in the parent's space."
@@ -33,10 +34,12 @@ def run(ck: Check) -> None:
     # H1 / H2: shared engines, reported under this property's rule names
     c04.t5(_Alias(ck, "T5", "H1"))
     c04.successor_protocol(ck, "H2")
+    from . import c15
+    c15.e5(_Alias(ck, "E5", "H2"))  # the successor list is complete where children are created
     h1_root(ck)
     h3(ck)
     ck.floor("H1", 5)
-    ck.floor("H2", 4)
+    ck.floor("H2", 6)
     ck.floor("H3", 4)
 
 
